@@ -64,6 +64,9 @@ def run(tier, rep):
     for mid in (0, 1, 1070, 1229, 2000, 4075, 4095):  # stubs
         cases.append((str(mid), bytes([mid >> 4, (mid & 0xF) << 4, rnd.randrange(256), rnd.randrange(256)])))
     cases.append(("4076_250", bytes([0xFE, 0xC1, 0xF4, 0x00])))
+    from .. import stream_corpus
+
+    cases += [("special", pl) for pl in stream_corpus.special_int_payloads(rnd) + stream_corpus.framelike_payloads(rnd)]
     nops = 0
     # the same payload is constructed again later (and its later copies are attacked too)
     cases = cases + [c for c in cases if c[0] in ("1005", "1007", "1008", "1029", "1033", "1230", "1077", "4076_201") or rnd.random() < 0.25]
